@@ -13,14 +13,14 @@ from .. import core
 ID = "C11"
 MODULE = "DrandProofs.C11"
 THEOREMS = ["Drand.Beacon.Stream." + t for t in [
-    "tie_syncchain_calls", "tie_syncchain_guards",
+    "tie_syncchain_calls", "tie_syncchain_guards", "tie_dispatch_lossless",
     "c11_scan_exact", "c11_scan_out_stored", "drop_seekIdx", "c11_live_fifo", "c11_no_repeat", "c11_sent_stored", "c11_exact_partial",
     "c11_gap_counterexample", "c11_gap_counterexample_after_scan", "c11_memdb_shift_counterexample", "c11_memdb_evicted_counterexample",
     "c11_detach_counterexample", "c11_exact_tracked", "frm_step", "c11_net_projection",
 ]]
 TRUSTED = ["Lean 4 kernel; axioms per theorem under coverage.axioms",
            "modelled, not verified: goroutine scheduling (every interleaving of the listed steps is a schedule), Go channels (FIFO), bbolt read transactions (a snapshot), memdb cursor (position into the live slice; C18 correspondence)",
-           "go2lean facts Gen.syncChainCalls / syncChainGuards / syncChainScanLoop (order of Last, Cursor/Seek/Next, AddCallback in SyncChain)",
+           "go2lean facts Gen.syncChainCalls / syncChainGuards / syncChainScanLoop (order of Last, Cursor/Seek/Next, AddCallback in SyncChain) and Gen.callbackPutDispatchBlocking (callbackStore.Put hands the beacon to every callback with a plain channel send: it may wait, it never skips)",
            "harness engine 'stream': gating store wrapper + gating SyncStream around the real SyncChain; absence of a further Send is decided by (job channel empty ∧ no callback running ∧ no Send pending), re-read after 1 ms",
            "bolt files are pre-grown by the harness so that a Put issued while a cursor transaction is open does not wait for an mmap resize (that stall is C12's finding, not C11's)"]
 ASSUMPTIONS = ["store appends are chain-legal (round = head+1): C02", "a gRPC Send that returned nil was delivered in order (HTTP/2 stream ordering)"]
@@ -99,6 +99,18 @@ def scripted_scenarios(backend):
     return S
 
 
+def burst_scenarios(backend, tier):
+    """a live stream whose client stops reading while more beacons are appended than the per-callback job queue
+    (CallbackWorkerQueue = 100) holds, then reads again: every round must still arrive, in order"""
+    n0 = n0_of(backend)
+    S = []
+    for frm, lead, n in ((0, 1, 104), (1, 0, 130)) + (((max(2, n0 // 2 + 1), 2, 250),) if tier != "quick" else ()):
+        ops = [f"init 1 {n0}", f"start a 8.8.8.8:1001 {frm} sync", "begin a", "scanall a", "register a"]
+        ops += ["put", "deliver a"] * lead + [f"burst a {n}"]
+        S.append({"name": f"burst from={frm} n={n}", "ops": ops + epilogue(["a"])})
+    return S
+
+
 def random_scenario(rng, backend, tier):
     n0 = rng.choice([1, 3, 5]) if backend != "mem10" else rng.choice([3, 9, 12])
     chained = rng.below(2)
@@ -169,7 +181,7 @@ def put_bound(ops):
     for o in ops:
         if o.startswith("init"):
             n0 = int(o.split()[2])
-    return n0 + sum(1 for o in ops if o == "put")
+    return n0 + sum(1 for o in ops if o == "put") + sum(int(o.split()[2]) for o in ops if o.startswith("burst "))
 
 
 # ----------------------------------------------------------------------------------------------- oracle
@@ -235,6 +247,19 @@ def analyze(backend, ops, outs):
         if out in ("stuck", "bad-op", "unsettled") or out.startswith(("panic", "unexpected-event", "err:", "blocked")):
             problems.append(("violation", None, f"`{op}` answered {out}"))
             return problems
+        if f[0] == "burst":
+            # n appends with the client of stream f[1] not reading, then a drain of that stream
+            first, _, rest = out.partition(" ; ")
+            n = int(f[2])
+            if not first.startswith("ok ") or int(first.split()[1]) != head + n:
+                problems.append(("violation", None, f"`{op}` answered {first} at head {head}")); return problems
+            for r in range(head + 1, head + n + 1):
+                full = mem and r >= cap
+                for s in streams.values():
+                    s.puts.append((r, s.phase, full, order))
+                    s.drained = False
+            head += n
+            f, out = ["drain", f[1]], rest
         if f[0] == "init":
             head = int(f[2])
         elif f[0] == "put":
@@ -456,6 +481,7 @@ def explore(ctx, res):
         scens = [dict(c) for c in corpus if c["backend"] == backend]
         scens += placement_scenarios(backend, tier, ["sync", "public", "sync"])
         scens += scripted_scenarios(backend)
+        scens += burst_scenarios(backend, tier)
         nr = 40 if tier == "quick" else 1500
         scens += [random_scenario(rng.fork(f"{backend}:r{i}"), backend, tier) for i in range(nr)]
         if tier != "quick" and backend.startswith("mem"):
@@ -508,9 +534,11 @@ def explore(ctx, res):
             devs = [p for p in probs if p[0] == "deviation"]
             if viol:
                 print("C11: oracle violated in scenario", sc["name"], "-", viol[0][2], flush=True)
-                small = shrink(backend, ops, lambda ps: any(p[0] == "violation" for p in ps)) if len(ops) > 12 else ops
+                # shrink towards the same kind of failure: a script the engine refuses (`… answered bad-state`) is not a witness
+                same = (lambda p: p[0] == "violation") if " answered " in viol[0][2] else (lambda p: p[0] == "violation" and " answered " not in p[2])
+                small = shrink(backend, ops, lambda ps: any(same(p) for p in ps)) if len(ops) > 12 else ops
                 rc, o, e = core.run_lines(H(), ["stream", backend], small + ["reset"], timeout=120)
-                why = [p[2] for p in analyze(backend, small, o) if p[0] == "violation"] or [viol[0][2]]
+                why = [p[2] for p in analyze(backend, small, o) if same(p)] or [viol[0][2]]
                 res.add_violation({"engine": "stream", "backend": backend, "kind": "impl-violates", "scenario": sc["name"],
                                    "ops": small, "observed": o[:len(small)], "oracle": why[0]})
                 return finish(res, total, nontriv, dist, samples, validated, tracked_matches)
